@@ -357,7 +357,7 @@ impl Configuration {
 
         Some(Spanned {
             node: name,
-            span: value.configuration_span?,
+            span: value.configuration_span.or(self.span)?,
         })
     }
 
